@@ -74,9 +74,8 @@ func Relocate(err error, filename string, line, col int) error {
 		}
 	case *scanner.Error:
 		relocatePos(&e.Pos, filename, line, col)
-	default:
-		panic("todo: " + reflect.TypeOf(err).String())
 	}
+	// other kinds of error (cl.ErrNoDocFound, I/O errors, ...) carry no position: returned unchanged
 	return err
 }
 
